@@ -59,7 +59,11 @@ class UsageExecNode:
         #     raise TawaziTypeError(f"{xn} didn't run, hence its result is not indexable. Check your DAG's config")
 
         if self.id in results:
-            return reduce(lambda obj, key: obj.__getitem__(key), self.key, results[self.id])
+            xn_result = results[self.id]
+            # an ExecNode that didn't run (deactivated) yields None: so does every indexed / unpacked part of it
+            if xn_result is None and self.key:
+                return None
+            return reduce(lambda obj, key: obj.__getitem__(key), self.key, xn_result)
         return None
 
     def __bool__(self) -> NoReturn:
